@@ -25,7 +25,7 @@ RULE = (
     '(parameter digest, grid class).'
 )
 ASSUMPTIONS = ['quadrature of the repository\'s own specific-yield callable is the reference (C14 / C16 check that callable)']
-SIZES = {'quick': dict(fn=400, cli=14), 'thorough': dict(fn=20000, cli=500)}
+SIZES = {'quick': dict(fn=1200, cli=28), 'thorough': dict(fn=20000, cli=500)}
 REQUIRED = {
     tier: {
         'curves-vs-quadrature': 300,
